@@ -53,6 +53,7 @@ type Script struct {
 	Structs   map[string][]string
 	// loop-carried variables that are case-split: SMT constant name -> split variable
 	SplitConsts map[string]string
+	QuickStride int
 }
 
 func (s *Script) emit(format string, a ...interface{}) {
@@ -386,6 +387,7 @@ func (vc *VC) TranslateFunction(fn *ssa.Function, con *Contract) (sc *Script, er
 	}
 	sc = newScript(name)
 	sc.Con = con
+	sc.QuickStride = con.QuickStride
 	sc.Splits = con.Splits
 	sc.Pos = vc.position(fn.Pos())
 	sc.Ideal = con.Float == "ideal"
